@@ -444,6 +444,10 @@ def explore(harness, *, tier='quick', timeout_ms=20000, max_paths=20000, budget_
                     else:
                         for k, ev in exp.items():
                             gv = flat.get(k, '<missing>')
+                            if not _isnum(gv) and not isinstance(gv, str):
+                                gv = repr(gv)
+                            elif isinstance(gv, str) and isinstance(ev, str) and gv != '<missing>':
+                                gv = repr(gv)
                             if ev is None:
                                 continue
                             if isinstance(ev, str) or isinstance(gv, str):
